@@ -130,6 +130,8 @@ def slice_consts(sl):
                 yield 'bytes', o['bytes'], bb, node
             elif 'int' in o:
                 yield 'int', o['int'], bb, node
+            elif 'tyconst' in o and o['tyconst'].startswith('"'):
+                yield 'str', o['tyconst'].strip('"'), bb, node
             elif 'uneval' in o:
                 yield 'uneval', o['uneval'], bb, node
 
